@@ -3,8 +3,12 @@
 (* signed and submitted is recorded with the Record* actions of BlockRelay; the invariants of      *)
 (* BlockRelay judge the record after every line.  Logged by the fakes when they are called:        *)
 (*   Fetch (with the configuration it left)   RoundStart / RoundEnd    SignReq                      *)
-(*   RelaySubmit   NodeSubmit   PrepStart / PrepSubmit / PrepEnd   FwdStart / FwdEnd                 *)
-(* The order of the parallel submissions inside a round is the code's: any order is accepted.       *)
+(*   RelayStart / RelayBatch / RelayFinish   NodeStart / NodeFinish                                  *)
+(*   PrepStart / PrepCall / PrepReturn / PrepEnd   FwdStart / FwdEnd                                 *)
+(* Every call to a relay or node is a process of its own: Start carries what the client was handed  *)
+(* and whether the call's context was already cancelled (cx), Batch what the relay received, Finish  *)
+(* the outcome ("ctx" = the fake saw its context cancelled before the call completed).  The order   *)
+(* of the overlapping calls inside a round is the code's: any order is accepted.                    *)
 EXTENDS BlockRelay, TraceLib
 
 VARIABLE l
@@ -25,6 +29,9 @@ TraceReset ==
     /\ sentR' = [r \in Relays |-> {}] /\ doneR' = {}
     /\ sentN' = [n \in Nodes |-> {}] /\ doneN' = {}
     /\ prepN' = [n \in Nodes |-> {}] /\ donePrep' = {}
+    /\ callR' = [r \in Relays |-> "idle"] /\ callN' = [n \in Nodes |-> "idle"] /\ callP' = [n \in Nodes |-> "idle"]
+    /\ pendR' = [r \in Relays |-> {}] /\ gotR' = [r \in Relays |-> {}]
+    /\ cancelled' = {}
     /\ fwdIn' = {}
     /\ signedEver' = {}
     /\ latestSigned' = [v \in AllV |-> <<>>]
@@ -46,12 +53,16 @@ TraceFetch ==
 
 TraceRoundStart == IsEvent("RoundStart") /\ RoundStart(SeqToSet(Line.accts))
 TraceSignReq == IsEvent("SignReq") /\ RecordSignReq(Line.v, Line.fee, Line.gas, Line.ok)
-TraceRelaySubmit == IsEvent("RelaySubmit") /\ RecordRelaySubmit(Line.r, SeqToSet(Line.regs))
-TraceNodeSubmit == IsEvent("NodeSubmit") /\ RecordNodeSubmit(Line.n, SeqToSet(Line.regs))
+TraceRelayStart == IsEvent("RelayStart") /\ RecordRelayStart(Line.r, SeqToSet(Line.regs), Line.cx)
+TraceRelayBatch == IsEvent("RelayBatch") /\ RecordRelayDeliver(Line.r, SeqToSet(Line.regs))
+TraceRelayFinish == IsEvent("RelayFinish") /\ RecordRelayFinish(Line.r, Line.out)
+TraceNodeStart == IsEvent("NodeStart") /\ RecordNodeStart(Line.n, SeqToSet(Line.regs), Line.cx)
+TraceNodeFinish == IsEvent("NodeFinish") /\ RecordNodeFinish(Line.n, Line.out)
 TraceRoundEnd == IsEvent("RoundEnd") /\ EndRound("reg")
 
 TracePrepStart == IsEvent("PrepStart") /\ PrepStart(SeqToSet(Line.accts))
-TracePrepSubmit == IsEvent("PrepSubmit") /\ RecordPrepSubmit(Line.n, SeqToSet(Line.preps))
+TracePrepCall == IsEvent("PrepCall") /\ RecordPrepCall(Line.n, SeqToSet(Line.preps), Line.cx)
+TracePrepReturn == IsEvent("PrepReturn") /\ RecordPrepReturn(Line.n, Line.out)
 TracePrepEnd == IsEvent("PrepEnd") /\ EndRound("prep")
 
 TraceFwdStart ==
@@ -61,8 +72,9 @@ TraceFwdEnd == IsEvent("FwdEnd") /\ EndRound("fwd")
 
 TraceNext ==
     \/ TraceReset \/ TraceFetch
-    \/ TraceRoundStart \/ TraceSignReq \/ TraceRelaySubmit \/ TraceNodeSubmit \/ TraceRoundEnd
-    \/ TracePrepStart \/ TracePrepSubmit \/ TracePrepEnd
+    \/ TraceRoundStart \/ TraceSignReq \/ TraceRoundEnd
+    \/ TraceRelayStart \/ TraceRelayBatch \/ TraceRelayFinish \/ TraceNodeStart \/ TraceNodeFinish
+    \/ TracePrepStart \/ TracePrepCall \/ TracePrepReturn \/ TracePrepEnd
     \/ TraceFwdStart \/ TraceFwdEnd
 
 TraceSpec == TraceInit /\ [][TraceNext]_tvars
